@@ -46,6 +46,11 @@ CLAIMED = {
   text="Extracts from the SSA of the current source, layer by layer, the decision tables of the evaluator behind caldav.Match — time-range of a non-recurring VEVENT over every weak ordering of range start/end and DTSTART/DTEND (and the open-ended forms), property time-range, component filter at root and child level, property filter, parameter filter, text-match with negate-condition, each sub-result true/false/error — and of Filter, and compares every row with a reference evaluator written from RFC 4791 §9.7–9.9 as quoted in the statement. Exhaustive over the declared abstract domain (the RFC grammar's side constraints). Does not decide recurring events (rrule-go), text comparison on real strings, multi-valued properties.",
   note="Trusted: go/ssa; models of go-ical accessors (presence atoms, instant symbols with failure atoms); my reading of RFC 4791 §9.9. Helpers are identified by their signatures; if the evaluator is restructured beyond that, the check reports 'undecided' (fails closed).",
   ref="DESIGN.md §3 C06"),
+ "C16": dict(
+  technique="static analysis: exhaustive decision tables for the finite codecs (abstract interpretation of go/ssa), structural pairing rules and a value rule on time.Format sites",
+  text="Exhaustive for the finite primitives (Depth, Overwrite: encode and decode tables extracted from the SSA are mutually inverse and every other string is rejected). For the others only the structural necessary conditions: encoder and decoder use an inverse pair of primitives with the same constants (%q/Unquote, Format(L)/Parse(L), http.TimeFormat/ParseTime, URL.String/url.Parse, three-field status line), every literal-zone layout is applied to a UTC-normalised instant, no decoder drops its parser's error. Does not decide the round trip over all strings and instants (values, not shape).",
+  note="Trusted: go/ssa; the standard library's inverse-pair contracts.",
+  ref="DESIGN.md §3 C16"),
 }
 
 def main():
